@@ -5,22 +5,34 @@ import TonicModel.Spec.Codegen
 import TonicModel.Spec.Router
 /-
 C11 driver.  Case lines (`-` = empty string; flags are 0/1; sides = both|client|server):
-  gen <emit_package> <arc_self> <default_stubs> <transport> <sides> <pkg> <name> <ident> <n> { <fn> <ident> <cs> <ss> <in> <out> }^n
-      real `CodeGenBuilder::generate_client/_server` on a hand-made `tonic_build::Service`
+  gen <emit_package> <arc_self> <default_stubs> <transport> <sides> <wkt> <proto_path> <pkg> <name> <ident> <n> { <fn> <ident> <cs> <ss> <in> <out> }^n
+      real `CodeGenBuilder::generate_client/_server` on a hand-made `tonic_build::Service`;
+      <in>/<out> = F:<path> (the path as given) | E:<base> (the harness's `request_response_name`
+      answers `<proto_path>::<base>`, with `Wkt` appended under compile_well_known_types)
   manual <transport> <sides> <pkg> <name> <n> { <fn> <route> <cs> <ss> <in> <out> }^n
       real `tonic_build::manual::Builder::compile`
-  prost <emit_package> <arc_self> <default_stubs> <sides> <pkg> <service> <n> { <method> <cs> <ss> <inMsg> <outMsg> }^n
-      real `tonic_build::configure()…compile_fds` on a FileDescriptorSet built by the harness
-  e2e <api> <wrap> <n> { <idx> <pkg> <name> <k> { <route> <kind> }^k }^n target <idx> <pkg> <name> <k> { <route> <kind> }^k <j> <len>
+  prost <emit_package> <arc_self> <default_stubs> <sides> <wkt> <proto_path> <extern> <pkg> <service> <n>
+        { <method> <cs> <ss> <inKind> <inProto> <inRust> <inHere> <outKind> <outProto> <outRust> <outHere> }^n
+      real `tonic_build::configure()…compile_fds` on a FileDescriptorSet built by the harness from
+      the message kinds (local / nested / keyword-named / other package / well-known / extern);
+      <..Proto> <..Rust> = prost-build's own `input_proto_type` / `input_type` for that message
+      under these options (recorded by the harness with a bare prost-build run: the external
+      library's answer, an input of the model); <..Here> = 1 iff the message is compiled into the
+      generated tree (decided by the harness from kind and options, independently of both)
+  e2e <api> <wrap> <n> { <idx> <emit> <pkg> <name> <k> { <route> <kind> }^k }^n target <idx> <emit> <pkg> <name> <k> { <route> <kind> }^k <j> <len>
       compiled generated client of pool service `target`, method j, against a router holding
-      the compiled generated servers of the listed pool services
+      the compiled generated servers of the listed pool services (<emit> = emit_package)
+  srv <idx> <emit> <pkg> <name> <k> { <route> <kind> }^k <path-hex>
+      one request sent straight to the compiled generated server (no router in front)
   regen
       run the real `codegen` binary on a scratch copy and byte-compare with the committed files
 Observed / model line for gen|manual|prost:
-  name <SERVICE_NAME> <NamedService::NAME> on <match scrutinee> default <code of the `_` arm>
-  server <n> { <literal> <grpc call> <trait> <reqStream> <respStream> <req> <resp> <fn> }^n
+  name <SERVICE_NAME> <NamedService::NAME>
+  server <n> { <literal> <grpc call> <trait> <reqStream> <respStream> <req> <resp> <trait-fn req> <trait-fn resp> <fn> }^n
   client <n> { <fn> <path> <GrpcMethod svc> <GrpcMethod method> <grpc call> <reqStream> <respStream> <req> <resp> }^n
-(an absent side is `server -` / `client -`, and then `name - - on - default -`).
+(an absent side is `server -` / `client -`, and then `name - -`).  What the generated `call`
+matches on and what its `_` arm answers is not read off the text: `srv` / `e2e` cases (and C10)
+decide it by running the compiled generated servers.
 -/
 namespace DriverC11
 open Proto Codegen
@@ -70,12 +82,27 @@ structure Job where
   server : Bool
   /-- Rust-side fn names are predictable (not the case for prost's identifier mangling) -/
   fnKnown : Bool
+  /-- per method: the request / response type paths the definition calls for (spec side) -/
+  want : List (Bytes × Bytes)
+  /-- the case's premises hold (prost-build's answers are of the assumed shapes) -/
+  premises : Bool := true
 
-def method6 : List String → Option Method
+def colons : Bytes := [58, 58]
+
+/-- `F:<path>` / `E:<base>`: the model's type source and, separately, the type the definition
+calls for (for `E` that is the harness's own function of the *configured* options). -/
+def typeTok (ppath : Bytes) (wkt : Bool) (t : String) : Option (TypeName × Bytes) :=
+  let rest : String := String.ofList (t.toList.drop 2)
+  if t.startsWith "F:" then some (.fixed (b rest), b rest)
+  else if t.startsWith "E:" then
+    some (.echo (b rest), ppath ++ colons ++ b rest ++ (if wkt then b "Wkt" else []))
+  else none
+
+def method6 (ppath : Bytes) (wkt : Bool) : List String → Option (Method × (Bytes × Bytes))
   | [fn, ident, cs, ss, i, o] =>
-    match flag? cs, flag? ss with
-    | some cs, some ss => some ⟨b fn, b ident, cs, ss, b i, b o⟩
-    | _, _ => none
+    match flag? cs, flag? ss, typeTok ppath wkt i, typeTok ppath wkt o with
+    | some cs, some ss, some (ti, wi), some (to, wo) => some (⟨b fn, b ident, cs, ss, ti, to⟩, (wi, wo))
+    | _, _, _, _ => none
   | _ => none
 
 def sides? (s : String) : Option (Bool × Bool) :=
@@ -83,50 +110,66 @@ def sides? (s : String) : Option (Bool × Bool) :=
   | "both" => some (true, true) | "client" => some (true, false) | "server" => some (false, true)
   | _ => none
 
+/-- the premise `C11.ProstLaw`, as a Bool (spelled out here: the driver does not import Props) -/
+def prostLaw (pt rt : Bytes) (wkt here : Bool) : Bool :=
+  (((isGoogleType pt && !wkt) || Codegen.colons.isPrefixOf rt || nonPathTypeAllowlist.contains rt ||
+    cratePrefix.isPrefixOf rt) == !here)
+
 def parseJob : List String → Option Job
-  | "gen" :: emit :: _arc :: _stubs :: _tr :: sides :: pkg :: name :: ident :: n :: rest => do
+  | "gen" :: emit :: _arc :: _stubs :: _tr :: sides :: wkt :: ppath :: pkg :: name :: ident :: n :: rest => do
     let emit ← flag? emit
+    let wkt ← flag? wkt
     let (c, s) ← sides? sides
     let n ← nat? n
     let (bl, r) ← blocks 6 n rest
     if !r.isEmpty then none
-    let ms ← bl.mapM method6
-    some ⟨⟨b name, b pkg, b ident, ms⟩, ⟨emit⟩, c, s, true⟩
+    let ms ← bl.mapM (method6 (b ppath) wkt)
+    some ⟨⟨b name, b pkg, b ident, ms.map (·.1)⟩, ⟨emit, wkt, b ppath⟩, c, s, true, ms.map (·.2), true⟩
   | "manual" :: _tr :: sides :: pkg :: name :: n :: rest => do
     let (c, s) ← sides? sides
     let n ← nat? n
     let (bl, r) ← blocks 6 n rest
     if !r.isEmpty then none
-    let ms ← bl.mapM method6
-    -- manual::Service: identifier = name, emit_package(true)
-    some ⟨⟨b name, b pkg, b name, ms⟩, ⟨true⟩, c, s, true⟩
-  | "prost" :: emit :: _arc :: _stubs :: sides :: pkg :: svc :: n :: rest => do
+    let ms ← bl.mapM (fun
+      | [fn, ident, cs, ss, i, o] => do
+        some ((⟨b fn, b ident, ← flag? cs, ← flag? ss, .fixed (b i), .fixed (b o)⟩ : Method), (b i, b o))
+      | _ => none)
+    -- manual::Service: identifier = name, emit_package(true), compile_well_known_types(false), proto_path ""
+    some ⟨⟨b name, b pkg, b name, ms.map (·.1)⟩, ⟨true, false, []⟩, c, s, true, ms.map (·.2), true⟩
+  | "prost" :: emit :: _arc :: _stubs :: sides :: wkt :: ppath :: _ext :: pkg :: svc :: n :: rest => do
     let emit ← flag? emit
+    let wkt ← flag? wkt
     let (c, s) ← sides? sides
     let n ← nat? n
-    let (bl, r) ← blocks 5 n rest
+    let (bl, r) ← blocks 11 n rest
     if !r.isEmpty then none
     let ms ← bl.mapM (fun
-      | [m, cs, ss, i, o] => do
+      | [m, cs, ss, _ik, ip, ir, ih, _ok, op, or, oh] => do
         let cs ← flag? cs
         let ss ← flag? ss
-        -- prost.rs request_response_name: `<proto_path>::<RustType>`, proto_path = "super"
-        some (⟨[], b m, cs, ss, b ("super::" ++ i), b ("super::" ++ o)⟩ : Method)
+        let ih ← flag? ih
+        let oh ← flag? oh
+        -- prost.rs request_response_name works from prost-build's (proto type, Rust type);
+        -- the definition calls for: compiled here → below proto_path, else as prost names it
+        some ((⟨[], b m, cs, ss, .prost (b ip) (b ir), .prost (b op) (b or)⟩ : Method),
+              (Spec.Codegen.typePath (b ppath) ih (b ir), Spec.Codegen.typePath (b ppath) oh (b or)),
+              prostLaw (b ip) (b ir) wkt ih && prostLaw (b op) (b or) wkt oh)
       | _ => none)
-    some ⟨⟨[], b pkg, b svc, ms⟩, ⟨emit⟩, c, s, false⟩
+    some ⟨⟨[], b pkg, b svc, ms.map (·.1)⟩, ⟨emit, wkt, b ppath⟩, c, s, false,
+          ms.map (·.2.1), ms.all (·.2.2)⟩
   | _ => none
 
 def renderJob (j : Job) : String :=
   let fnTok (x : Bytes) : String := if j.fnKnown then sh x else "="
   let head :=
     if j.server then
-      s!"name {sh (serviceNameConst j.svc j.opts)} {sh (serviceNameConst j.svc j.opts)} on req.uri().path() default Unimplemented"
-    else "name - - on - default -"
+      s!"name {sh (serviceNameConst j.svc j.opts)} {sh (serviceNameConst j.svc j.opts)}"
+    else "name - -"
   let server :=
     if j.server then
       let arms := serverArms j.svc j.opts
       String.intercalate " " (s!"server {arms.length}" :: arms.map (fun a =>
-        s!"{sh a.literal} {callTok a.call} {traitTok a.svcTrait} {showFlag a.reqStream} {showFlag a.respStream} {sh a.req} {sh a.resp} {fnTok a.fn}"))
+        s!"{sh a.literal} {callTok a.call} {traitTok a.svcTrait} {showFlag a.reqStream} {showFlag a.respStream} {sh a.req} {sh a.resp} {sh a.traitReq} {sh a.traitResp} {fnTok a.fn}"))
     else "server -"
   let client :=
     if j.client then
@@ -139,8 +182,8 @@ def renderJob (j : Job) : String :=
 /- ---- parsing the observed line into the spec's vocabulary ---- -/
 
 def serverObs? : List String → Option Spec.Codegen.ServerObs
-  | [lit, call, tr, rq, rs, req, resp, _fn] => do
-    some ⟨b lit, ← callNum? call, ← traitNum? tr, ← flag? rq, ← flag? rs, b req, b resp⟩
+  | [lit, call, tr, rq, rs, req, resp, treq, tresp, _fn] => do
+    some ⟨b lit, ← callNum? call, ← traitNum? tr, ← flag? rq, ← flag? rs, b req, b resp, b treq, b tresp⟩
   | _ => none
 
 def clientObs? : List String → Option Spec.Codegen.ClientObs
@@ -151,8 +194,6 @@ def clientObs? : List String → Option Spec.Codegen.ClientObs
 structure Seen where
   serviceName : Option Bytes
   namedName : Option Bytes
-  scrutinee : String
-  default : String
   server : Option (List Spec.Codegen.ServerObs)
   serverFns : List String
   client : Option (List Spec.Codegen.ClientObs)
@@ -167,8 +208,8 @@ def parseSide (w : Nat) : List String → Option (Option (List (List String)) ×
   | [] => none
 
 def parseSeen : List String → Option Seen
-  | "name" :: sn :: nn :: "on" :: scr :: "default" :: d :: "server" :: rest => do
-    let (sb, rest) ← parseSide 8 rest
+  | "name" :: sn :: nn :: "server" :: rest => do
+    let (sb, rest) ← parseSide 10 rest
     match rest with
     | "client" :: rest =>
       let (cb, rest) ← parseSide 9 rest
@@ -180,22 +221,26 @@ def parseSeen : List String → Option Seen
         | some bl => (bl.mapM clientObs?).map some
         | none => some none
       let opt (s : String) : Option Bytes := if s == "-" then none else some (b s)
-      some ⟨opt sn, opt nn, scr, d, server, (sb.getD []).map (fun l => l.getLast!),
+      some ⟨opt sn, opt nn, server, (sb.getD []).map (fun l => l.getLast!),
             client, (cb.getD []).map (fun l => l.head!)⟩
     | _ => none
   | _ => none
 
-def specDef (s : Service) : Spec.Codegen.ServiceDef :=
-  ⟨s.package, s.ident, s.methods.map (fun m => ⟨m.ident, m.clientStreaming, m.serverStreaming, m.input, m.output⟩)⟩
+/-- the service definition in the spec's vocabulary; the message types are those the definition
+calls for (`want`), not what the model computes -/
+def specDef (j : Job) : Spec.Codegen.ServiceDef :=
+  ⟨j.svc.package, j.svc.ident, (j.svc.methods.zip j.want).map (fun (m, w) =>
+    ⟨m.ident, m.clientStreaming, m.serverStreaming, w.1, w.2⟩)⟩
 
 def judge (j : Job) (obs : List String) : String :=
   match parseSeen obs with
   | none => "fail:generator-output-not-understood"
   | some o =>
-    let d := specDef j.svc
+    let d := specDef j
     let pkgShown := if j.opts.emitPackage then j.svc.package else []
     let svc := Spec.Codegen.fullName pkgShown d.ident
     verdict [
+      ("prost-build-output-as-assumed", j.premises),
       ("requested-sides-generated", o.client.isSome == j.client && o.server.isSome == j.server),
       ("service-name-is-path-prefix", !j.server || (o.serviceName == some svc && o.namedName == some svc)),
       ("client-sends-to-/package.Service/Method-with-declared-shape-and-types",
@@ -206,25 +251,26 @@ def judge (j : Job) (obs : List String) : String :=
         match o.client, o.server with
         | some cs, some ss => Spec.Codegen.sidesAgree cs ss && o.clientFns == o.serverFns
         | _, _ => true),
-      ("server-matches-on-the-request-path", !j.server || o.scrutinee == "req.uri().path()"),
-      ("unknown-path-is-unimplemented", !j.server || o.default == "Unimplemented"),
       ("conforms", Spec.Codegen.conforms pkgShown d (if j.server then o.serviceName else none) o.client o.server)]
 
 /- ---- end-to-end through compiled generated code ---- -/
 
 structure PoolSvc where
   idx : Nat
+  /-- generated with `emit_package(true)` -/
+  emit : Bool
   pkg : Bytes
   name : Bytes
   methods : List (Bytes × Nat)   -- route, kind
 
 def poolSvc? : List String → Option (PoolSvc × List String)
-  | idx :: pkg :: name :: k :: rest => do
+  | idx :: emit :: pkg :: name :: k :: rest => do
     let idx ← nat? idx
+    let emit ← flag? emit
     let k ← nat? k
     let (bl, r) ← blocks 2 k rest
     let ms ← bl.mapM (fun | [r, kd] => (nat? kd).map (fun kd => (b r, kd)) | _ => none)
-    some (⟨idx, b pkg, b name, ms⟩, r)
+    some (⟨idx, emit, b pkg, b name, ms⟩, r)
   | _ => none
 
 def poolSvcs : Nat → List String → Option (List PoolSvc × List String)
@@ -235,7 +281,12 @@ def poolSvcs : Nat → List String → Option (List PoolSvc × List String)
     some (s :: ss, r)
 
 def PoolSvc.desc (p : PoolSvc) : Service :=
-  ⟨p.name, p.pkg, p.name, p.methods.map (fun (r, kd) => ⟨[], r, kd == 2 || kd == 3, kd == 1 || kd == 3, [], []⟩)⟩
+  ⟨p.name, p.pkg, p.name, p.methods.map (fun (r, kd) => ⟨[], r, kd == 2 || kd == 3, kd == 1 || kd == 3, .fixed [], .fixed []⟩)⟩
+
+def PoolSvc.opts (p : PoolSvc) : Opts := { emitPackage := p.emit }
+
+/-- gRPC Service-Name the definition calls for (spec side) -/
+def PoolSvc.want (p : PoolSvc) : Bytes := Spec.Codegen.fullName (if p.emit then p.pkg else []) p.name
 
 def values (idx j kind payload : Nat) : String :=
   let code := idx * 10000 + j * 100 + min payload 99
@@ -260,16 +311,15 @@ def handleE2e (rest obs : List String) : String × String :=
             match t.methods[j]? with
             | none => bad
             | some (route, ckind) =>
-              let o : Opts := ⟨true⟩
               -- the generated client's path for method j …
-              let path := (clientCalls t.desc o).map (·.path) |>.getD j []
+              let path := (clientCalls t.desc t.opts).map (·.path) |>.getD j []
               -- … routed among the generated servers (C10's router, fed with NAME + arm idents)
-              let rreg : List Router.Svc := reg.map (fun p => ⟨serviceNameConst p.desc o, p.desc.methods.map (·.ident)⟩)
+              let rreg : List Router.Svc := reg.map (fun p => ⟨serviceNameConst p.desc p.opts, p.desc.methods.map (·.ident)⟩)
               let nreq := if ckind == 2 || ckind == 3 then 2 else 1
               let model :=
                 match Router.dispatch rreg path with
                 | .handler s m =>
-                  match reg.find? (fun p => serviceNameConst p.desc o == s) with
+                  match reg.find? (fun p => serviceNameConst p.desc p.opts == s) with
                   | some p =>
                     match findIdx (fun rm => rm.1 == m) p.methods 0 with
                     | some (mj, (_, skind)) => s!"hit {sh s} {sh m} {nreq} {values p.idx mj skind (len * nreq)}"
@@ -279,9 +329,9 @@ def handleE2e (rest obs : List String) : String × String :=
                 | _ => "hit - - - err 12"
               -- spec, without the model: the call must reach exactly (Service-Name of target, method j)
               -- when the target is registered, and be UNIMPLEMENTED otherwise
-              let want := Spec.Codegen.fullName t.pkg t.name
+              let want := t.want
               let registered := reg.any (fun p => p.idx == t.idx)
-              let dup := Router.hasDup (reg.map (fun p => Spec.Codegen.fullName p.pkg p.name))
+              let dup := Router.hasDup (reg.map PoolSvc.want)
               let v :=
                 if dup then "ok" else
                 if registered then
@@ -296,6 +346,34 @@ def handleE2e (rest obs : List String) : String × String :=
           | _, _ => bad
         | _ => bad
       | _ => bad
+  | _ => bad
+
+/-- `srv`: one request straight into a compiled generated server.  Model: C10's `Svc.call` on
+(NAME, arm identifiers) as the generator model gives them.  Spec: C10's predicate on the single
+declared service — the exact `/Service-Name/method` path runs that method (status 0), every
+other path is answered UNIMPLEMENTED by the generated code itself with no handler run. -/
+def handleSrv (rest obs : List String) : String × String :=
+  match poolSvc? rest with
+  | some (t, [p]) =>
+    match unhex p with
+    | none => bad
+    | some path =>
+      let svc : Router.Svc := ⟨serviceNameConst t.desc t.opts, (serverArms t.desc t.opts).map
+        (fun a => a.literal.drop ((serviceNameConst t.desc t.opts).length + 2))⟩
+      let model := match svc.call path with
+        | .handler s m => s!"hit {sh s} {sh m} status 0 http 200 ct application/grpc"
+        | _ => "hit - - status 12 http 200 ct application/grpc"
+      let decl : Spec.Router.Decl := [(t.want, t.methods.map (·.1))]
+      let v := match obs with
+        | ["hit", s, m, "status", st, "http", code, "ct", ct] =>
+          match optNat? st, nat? code with
+          | some st, some code =>
+            let o : Spec.Router.Obs := ⟨if s == "-" then none else some (b s, b m), st, code, ct == "application/grpc"⟩
+            verdict [("generated-server-runs-a-method-iff-exact-path", Spec.Router.handlerOk decl path o),
+                     ("generated-server-answers-unimplemented-otherwise", Spec.Router.answerOk decl path 0 o)]
+          | _, _ => "fail:no-response-observed"
+        | _ => "fail:no-response-observed"
+      (model, v)
   | _ => bad
 
 /-- The files the property names (and the descriptor-set files the same run writes). -/
@@ -316,6 +394,7 @@ def handle (case obs : List String) : String × String :=
       | _ => "fail:regeneration-did-not-run"
     (model, v)
   | "e2e" :: rest => handleE2e rest obs
+  | "srv" :: rest => handleSrv rest obs
   | _ =>
     match parseJob case with
     | some j => (renderJob j, judge j obs)
